@@ -273,7 +273,17 @@ def analyse_function(rep: Report) -> tuple[str, str]:
             else:
                 names = [n for n, _ in cr[1]]
                 stale = [n for n, d in cr[1] if s.defs.get(n, frozenset()) != d]
-                if names != [sname, ename, L]:
+
+                def same_value(a_: str, b_: str) -> bool:
+                    """the same name, or two integer locals the zone knows to be equal on this path"""
+                    if a_ == b_:
+                        return True
+                    try:
+                        ea, eb = ast.parse(a_, mode='eval').body, ast.parse(b_, mode='eval').body
+                    except SyntaxError:
+                        return False
+                    return proves_le(zd, s, ea, eb) and proves_le(zd, s, eb, ea)
+                if len(names) != 3 or not all(same_value(x_, y_) for x_, y_ in zip(names, [sname, ename, L])):
                     rep.fail('R13.3', construct, '206:content-range-names',
                              f'Content-Range is built from {names}, the slice returned is '
                              f'({sname}, {ename}) of {L}', st)
@@ -294,7 +304,11 @@ def analyse_function(rep: Report) -> tuple[str, str]:
                          f'a path answers 416 although neither start >= {L} nor start > end is '
                          f'implied (a last-byte-pos beyond the end must be clamped, RFC 7233 2.1); '
                          f'known on that path: {pathdesc}', st)
-            if cr is None or cr[0] != 'star' or [n for n, _ in cr[1]] != [L]:
+            star_names = [n for n, _ in cr[1]] if cr is not None else []
+            length_ok = len(star_names) == 1 and (star_names[0] == L or (
+                proves_le(zd, s, ast.Name(id=star_names[0], ctx=ast.Load()), ast.Name(id=L, ctx=ast.Load()))
+                and proves_le(zd, s, ast.Name(id=L, ctx=ast.Load()), ast.Name(id=star_names[0], ctx=ast.Load()))))
+            if cr is None or cr[0] != 'star' or not length_ok:
                 rep.fail('R13.3', construct, '416:content-range',
                          f'416 exit without `bytes */{{{L}}}` Content-Range', st)
             else:
